@@ -386,7 +386,7 @@ class Interp:
             # torch semantics: no exception; the denominators are recorded so that properties
             # that need them non-zero (C30) can ask.  x/0 stays an unconstrained z3 division.
             def dv(x, y):
-                self.ctx.ghost.setdefault("tensor_denominators", []).append(y)
+                self.ctx.ghost.setdefault("tensor_denominators", []).append((ops.b_and(*T.GUARDS), y))
                 return ops.truediv_raw(x, y)
             return T.elementwise(dv, a, b, ctx, dtype="real" if "complex" not in (
                 getattr(a, "dtype", ""), getattr(b, "dtype", "")) else "complex")
@@ -404,6 +404,8 @@ class Interp:
         for op, rn in zip(node.ops, node.comparators):
             right = self.eval(rn, fr)
             c = self.compare1(op, left, right)
+            if isinstance(c, T.LamTensor) and c.ndim == 0:
+                c = c.fn()          # comparison of 0-d tensors: a scalar truth value
             acc = ops.b_and(acc, c) if not isinstance(c, T.LamTensor) else c
             if acc is False:
                 return False
